@@ -38,6 +38,10 @@ class BuildError(Exception):
     pass
 
 
+# upper bound for one run of a protocol binary (hx / drv) over a batch of cases; the quick tier's batches take seconds
+TOOL_TIMEOUT = int(os.environ.get("VERIF_TOOL_TIMEOUT", "300"))
+
+
 def sh(cmd, cwd=None, env=None, timeout=None, inp=None):
     p = subprocess.run(cmd, cwd=cwd, env=env, input=inp, stdout=subprocess.PIPE, stderr=subprocess.STDOUT,
                        timeout=timeout, text=True)
@@ -104,11 +108,25 @@ def build_lean(pid, log, extra_targets=()):
         if rc != 0:
             raise BuildError("source probe failed:\n" + out[-4000:])
         log["probe"] = out.strip().splitlines()[-1] if out.strip() else ""
+        probe_errors = [l for l in out.splitlines() if l.startswith("PROBE-ERROR")]
+        if probe_errors:
+            log["probe_errors"] = probe_errors
         targets = ["Okane.Props.%s" % pid, "drv"] + list(extra_targets)
         rc, out = sh(["lake", "build"] + targets, cwd=LEAN)
+        if rc != 0 and os.path.exists(DRV):
+            # `drv` links the drivers of all properties.  If only ANOTHER property's model no longer compiles (a source
+            # constant it depends on changed or could not be extracted), this property's theorems and its own driver
+            # module are unaffected: the driver binary of the last successful build contains exactly the same code for
+            # them (had their sources or dependencies changed, the build below would fail or the link would be needed).
+            own = ["Okane.Props.%s" % pid, "Okane.Drv.%s" % pid] + list(extra_targets)
+            rc2, out2 = sh(["lake", "build"] + own, cwd=LEAN)
+            if rc2 == 0:
+                log["drv_stale"] = "another property's driver module does not compile; using the driver binary of the last successful build"
+                rc, out = 0, out2
         log["lake_s"] = round(time.time() - t0, 2)
         if rc != 0:
-            return False, out
+            # a constant that could not be extracted from the source is missing from Generated/Params.lean
+            return False, "\n".join(probe_errors) + ("\n" if probe_errors else "") + out
         return True, out
 
 
@@ -235,8 +253,13 @@ def dec(a):
 def run_tool(binary, args, lines, timeout=600):
     """Feeds `lines` (one case per line) to a protocol binary, returns its stdout lines."""
     inp = "".join(l + "\n" for l in lines)
-    p = subprocess.run([binary] + list(args), input=inp, stdout=subprocess.PIPE, stderr=subprocess.PIPE, text=True,
-                       timeout=timeout)
+    try:
+        p = subprocess.run([binary] + list(args), input=inp, stdout=subprocess.PIPE, stderr=subprocess.PIPE, text=True,
+                           timeout=min(timeout, TOOL_TIMEOUT))
+    except subprocess.TimeoutExpired:
+        # the real code (or the model driver) did not come back: reported as a broken correspondence by main_for
+        raise BuildError("%s %s did not terminate within %d s on %d cases (a hang of the code under test, or of the "
+                         "model driver)" % (os.path.basename(binary), " ".join(args), min(timeout, TOOL_TIMEOUT), len(lines)))
     if p.returncode not in (0,):
         raise BuildError("%s %s exited with %d: %s" % (os.path.basename(binary), " ".join(args), p.returncode,
                                                        p.stderr[-2000:]))
@@ -403,7 +426,7 @@ def standard_prologue(chk, theorems, extra_targets=(), imports=()):
         return False
     ok, out = build_lean(chk.pid, chk.log, tuple(extra_targets) + tuple(imports))
     if not ok:
-        errs = [l for l in out.splitlines() if "error" in l][:10]
+        errs = [l for l in out.splitlines() if "error" in l.lower()][:10]
         chk.obligations = len(theorems)
         chk.violation("Lean proof obligations of %s no longer check (lake build failed): %s" % (chk.pid, errs),
                       {"broken": "lake build Okane.Props.%s" % chk.pid, "errors": errs, "log": out[-6000:]},
@@ -445,6 +468,9 @@ def main_for(pid, run):
             sys.exit(2)
     chk = Check(pid, a.tier if a.tier in ("quick", "thorough") else "quick", a.seed)
     chk.replay = a.replay
+    global TOOL_TIMEOUT
+    if chk.tier == "thorough" and "VERIF_TOOL_TIMEOUT" not in os.environ:
+        TOOL_TIMEOUT = 2400
     if not a.replay:
         # replay files of earlier runs of this check would be mistaken for this run's
         import glob
@@ -458,6 +484,10 @@ def main_for(pid, run):
     except BuildError as e:
         print("CHECK-ERROR: %s" % e)
         chk.violation("check machinery failed: %s" % str(e)[:300], {"error": str(e)}, no_failing_input=True, tag="err")
+    except subprocess.TimeoutExpired as e:
+        print("CHECK-ERROR: %s" % e)
+        chk.violation("a command run by the check did not terminate in time: %s" % str(e)[:300],
+                      {"error": str(e), "broken": "correspondence stream (command timed out)"}, no_failing_input=True, tag="err")
     if replayed is not None:
         want = str(replayed.get("summary", ""))[:120]
         again = [v for v in chk.violations if v[1][:120] == want]
